@@ -53,7 +53,7 @@ fn strs(v: &[&str]) -> Vec<String> {
     v.iter().map(|s| s.to_string()).collect()
 }
 
-const E1_RULE: &str = "seeded worlds (2-4 EOAs, 1-6 generated contracts with calldata-guarded snippets, CREATE/CREATE2 factories, 13 specs, layer stack and F7 knobs drawn per run) and histories of 1-4 transactions on one live Evm with the monitor inspector; faults: F1 database error at a drawn call index, F2 out-of-gas through low gas limits / constant call gas, F3 inspector short-circuits, F3b the inspector ends the running frame from step_end after a drawn instruction, F3c the inspector lowers a frame's gas limit inside its hook; values that snippets read flow on into storage / transient storage / memory; a case is non-trivial if at least one transaction executed and distinct by the hash of (spec, outcome classes, monitor event sequence)";
+const E1_RULE: &str = "seeded worlds (2-4 EOAs, 1-6 generated contracts with calldata-guarded snippets, CREATE/CREATE2 factories, 13 specs, layer stack and F7 knobs drawn per run) and histories of 1-4 transactions on one live Evm with the monitor inspector; faults: F1 database error at a drawn call index, F2 out-of-gas through low gas limits / constant call gas, F3 inspector short-circuits, F3b the inspector ends the running frame from step_end after a drawn instruction, F3c the inspector lowers a frame's gas limit inside its hook, F3e the inspector skips an inner frame from initialize_interp; values that snippets read flow on into storage / transient storage / memory; a case is non-trivial if at least one transaction executed and distinct by the hash of (spec, outcome classes, monitor event sequence)";
 
 pub fn check(prop: &str, tier: &str) -> i32 {
     let seed = seed_from_env();
